@@ -246,7 +246,7 @@ func genResp(t *rapid.T, cfg *Config, scale int, e2e bool, retired ...Shape) Res
 		r.OClose = rapid.IntRange(0, 7).Draw(t, "origin_close") == 0
 		if rapid.IntRange(0, 7).Draw(t, "odd_content_range") == 0 {
 			r.CR = rapid.SampledFrom(oddContentRanges).Draw(t, "cr")
-			r.Star, r.P206 = false, false
+			r.Star, r.P206, r.Start = false, false, 0
 		}
 		return r
 	}
